@@ -369,3 +369,14 @@ def repo_py(code: str, *, timeout=1800, env=None, input=None):
     """Run Python code in a fresh /venv interpreter (real pybes3 from the working tree)."""
     rc, out, err = run_cmd([PY, "-c", code], timeout=timeout, env=env, input=input, cwd=str(VERIF))
     return rc, out, err
+
+
+def regen_rootpy(chk):
+    """regenerate Gen/RootPy.lean from the working tree's root_io.py (Props/RootTie.lean proves it equal to the models)"""
+    from translate import gen
+    g = gen.gen_rootpy()
+    if not g["ok"]:
+        chk.obligation_broken("translator", "translate root_io.py (digi lifting loops, dispatch, tables, factory forms) into Gen/RootPy.lean", g["error"])
+        return False
+    chk.coverage["rootpy_translation"] = g["info"]
+    return True
